@@ -385,8 +385,28 @@ LONG_THOROUGH = (('kw_ident', 17), ('holes', 17), ('strings', 17), ('numbers', 1
 
 def c01(tier, seed):
     tp = tier_params(tier)
-    return lex_family('C01', tier, seed, relevant={'C01'}, select=sel_for(tier), name='lex',
-                      long_defs=(('long_loop', 40),) if tier == 'quick' else LONG_THOROUGH, **tp)
+    if tier != 'quick':
+        # second opinion: a sample of the queries is exported and re-decided by cvc5 and the system z3
+        import shutil
+        d = os.path.join(build.WORK, 'smt-export-C01')
+        shutil.rmtree(d, ignore_errors=True)
+        os.environ['VERIF_EXPORT_SMT'] = d
+    hook = {}
+    rc = lex_family('C01', tier, seed, relevant={'C01'}, select=sel_for(tier), name='lex',
+                    long_defs=(('long_loop', 40),) if tier == 'quick' else LONG_THOROUGH, evidence_hook=hook, **tp)
+    ev = hook['ev']
+    if tier != 'quick':
+        from . import crosscheck
+        os.environ.pop('VERIF_EXPORT_SMT', None)
+        cc = crosscheck.run(d)
+        ev.coverage['solver_cross_check'] = cc
+        log(f'C01 solver cross-check: {cc["queries"]} exported queries, cvc5 agrees on {cc["cvc5_agree"]}, z3 4.8.12 on '
+            f'{cc["z3_4_8_agree"]}, {len(cc["disagreements"])} disagreements, {len(cc["errors"])} errors')
+        if cc['disagreements'] or cc['errors']:
+            log('ENGINE: solver cross-check: ' + str((cc['disagreements'] + cc['errors'])[:3]))
+            rc = max(rc, 2) if rc != 1 else rc
+    ev.write()
+    return rc
 
 
 def c02(tier, seed):
